@@ -256,6 +256,9 @@ struct WindowOp {
     expired_before: Vec<u32>,
     /// predictive model: residents matched by an invalidate_entries_if predicate
     matched: Vec<u32>,
+    /// concurrent cache: a maintenance run took place inside the operation (before the
+    /// operation's own read/write was queued)
+    maint_inside: bool,
 }
 
 pub struct Exec<'a> {
@@ -283,7 +286,10 @@ pub struct Exec<'a> {
     /// popularity estimates read at the previous quiescent point
     q_est: HashMap<u32, u8>,
     // C04
+    maint_inside_op: bool,
     allowed_excess: u64,
+    /// concurrent cache: sum of in-place weight growths since the cache was last seen within capacity
+    sync_growth: u64,
     // C12/C13 predictive model: resident keys LRU -> MRU with model weights
     rec: Vec<(u32, u32)>,
     pred_ok: bool,
@@ -342,7 +348,9 @@ impl<'a> Exec<'a> {
             pre,
             window: Vec::new(),
             q_est: HashMap::new(),
+            maint_inside_op: false,
             allowed_excess: 0,
+            sync_growth: 0,
             rec: Vec::new(),
             pred_ok: true,
             est_prev: HashMap::new(),
@@ -437,6 +445,17 @@ impl<'a> Exec<'a> {
             Some(e) => {
                 self.cfg.ttl.map_or(false, |d| e.t_mod + d <= self.now)
                     || self.cfg.tti.map_or(false, |d| e.acc_hi + d <= self.now)
+            }
+        }
+    }
+
+    /// expired by the clock, judged with the lower access bound
+    fn expired_with_lower_bound(&self, k: u32) -> bool {
+        match self.cur(k) {
+            None => false,
+            Some(e) => {
+                self.cfg.ttl.map_or(false, |d| e.t_mod + d <= self.now)
+                    || self.cfg.tti.map_or(false, |d| e.acc_lo + d <= self.now)
             }
         }
     }
@@ -638,6 +657,7 @@ impl<'a> Exec<'a> {
                 matched = self.pre.entries.iter().filter(|e| p.eval(e.k, e.seq, e.w_val)).map(|e| e.k).collect();
             }
         }
+        crate::sched_hooks::reset_counters();
         match prim.clone() {
             Prim::Insert { k, w } => {
                 is_m_op = true;
@@ -986,6 +1006,7 @@ impl<'a> Exec<'a> {
             }
         }
 
+        self.maint_inside_op = self.is_sync() && !matches!(prim, Prim::Sync) && crate::sched_hooks::counters().try_sync_won > 0;
         let post = self.subr().snapshot();
         self.after_prim(step, &prim, &post, is_m_op, explicit_sync, growth, gets_in_op, touches_sketch, expired_before, matched)?;
         self.pre = post;
@@ -1103,10 +1124,13 @@ impl<'a> Exec<'a> {
         matched: Vec<u32>,
     ) -> Result<(), Violation> {
         let sync = self.is_sync();
+        if sync {
+            self.sync_growth += growth.unwrap_or(0);
+        }
         let quiescent_point = if sync { explicit_sync && post.quiescent() } else { true };
         let is_time = matches!(prim, Prim::Advance { .. } | Prim::AdvanceTo { .. } | Prim::IterAdvance { .. } | Prim::Handle { .. });
         if !is_time && !matches!(prim, Prim::Sync) {
-            self.window.push(WindowOp { step, prim: prim.clone(), now: self.now, expired_before, matched });
+            self.window.push(WindowOp { step, prim: prim.clone(), now: self.now, expired_before, matched, maint_inside: self.maint_inside_op });
         }
 
         if self.flags.term && sync && explicit_sync && !post.quiescent() {
@@ -1171,9 +1195,19 @@ impl<'a> Exec<'a> {
         if !sync && !is_time {
             if let Some(c) = cap {
                 if is_m_op {
-                    self.allowed_excess = growth.unwrap_or(0);
+                    // few entries: one eviction batch removes any excess, so only the growth
+                    // of this very operation may remain. After bursts (more residents than
+                    // one batch of 100 evictions) the growths accumulate until the cache
+                    // has been seen within its capacity again.
+                    self.allowed_excess = if self.burst_total == 0 {
+                        growth.unwrap_or(0)
+                    } else if phys_w <= c {
+                        0
+                    } else {
+                        self.allowed_excess + growth.unwrap_or(0)
+                    };
                 }
-                if self.flags.cap && self.burst_total == 0 {
+                if self.flags.cap {
                     if phys_w > c + self.allowed_excess {
                         viol!("C04", step, "resident weight {phys_w} exceeds max_capacity {c} (allowed excess from a growing update: {})", self.allowed_excess);
                     }
@@ -1300,10 +1334,17 @@ impl<'a> Exec<'a> {
         }
 
         // ---- C04 on the concurrent cache ----
-        if sync && self.flags.cap && self.burst_total == 0 {
+        if sync && self.flags.cap {
             if let Some(c) = cap {
-                if phys_w > c {
-                    viol!("C04", step, "after sync() the resident weight {phys_w} exceeds max_capacity {c}");
+                // after bursts one maintenance run (500 evictions) need not remove all the
+                // excess that in-place growths created: those growths are credited until
+                // the cache has been seen within its capacity again
+                let credit = if self.burst_total == 0 { 0 } else { self.sync_growth };
+                if phys_w > c + credit {
+                    viol!("C04", step, "after sync() the resident weight {phys_w} exceeds max_capacity {c} (in-place growths since it was last within capacity: {credit})");
+                }
+                if phys_w <= c {
+                    self.sync_growth = 0;
                 }
                 if window.len() == 1 {
                     if let Prim::Insert { k, w } = window[0].prim {
@@ -1467,7 +1508,11 @@ impl<'a> Exec<'a> {
             return Ok(());
         }
         let sync = self.is_sync();
-        if sync && (self.cfg.ttl.is_some() || self.cfg.tti.is_some() || self.va.is_some()) {
+        // The concurrent cache with expiry is followed only where the model is exact: every
+        // operation so far was followed by sync() (so the access times are known exactly)
+        // and invalidate_all was never used.
+        let sync_expiry = sync && (self.cfg.ttl.is_some() || self.cfg.tti.is_some());
+        if sync && (self.va.is_some() || (sync_expiry && (!self.all_windows_single || window.len() > 1))) {
             self.pred_ok = false;
             self.stats.inc("prediction_abandoned");
             return Ok(());
@@ -1512,8 +1557,14 @@ impl<'a> Exec<'a> {
                 decisions.push((d.0, d.1));
             }
             let m_op = matches!(wop.prim, Prim::Insert { .. } | Prim::Get { .. } | Prim::Contains { .. } | Prim::Invalidate { .. } | Prim::Burst { gets: true, .. });
-            if !sync && m_op {
+            // the single-threaded cache purges at the start of these operations; the
+            // concurrent one if the operation ran a (periodic) maintenance before it queued
+            // its own read / write (the key an insert has just written is fresh again)
+            if (!sync && m_op) || (sync_expiry && wop.maint_inside) {
                 for k in &wop.expired_before {
+                    if sync && matches!(wop.prim, Prim::Insert { k: own, .. } if own == *k) {
+                        continue;
+                    }
                     if let Some(pos) = rec.iter().position(|x| x.0 == *k) {
                         rec.remove(pos);
                         expired.push(*k);
@@ -1576,7 +1627,9 @@ impl<'a> Exec<'a> {
                     }
                 }
                 Prim::Get { k } => {
-                    if let Some(pos) = rec.iter().position(|x| x.0 == *k) {
+                    // (concurrent cache: a get of an expired, not yet purged entry misses)
+                    let hidden = sync_expiry && wop.expired_before.contains(k);
+                    if let Some(pos) = rec.iter().position(|x| x.0 == *k).filter(|_| !hidden) {
                         if pos + 1 != rec.len() {
                             moved = true;
                         }
@@ -1592,6 +1645,19 @@ impl<'a> Exec<'a> {
         }
         if let Some(d) = &decision {
             decisions.push((d.0, d.1));
+        }
+        if sync_expiry {
+            // the maintenance run behind the explicit sync(): after the writes, entries whose
+            // deadline has passed are purged, then the excess is evicted
+            let now_expired: Vec<u32> = rec.iter().map(|x| x.0).filter(|k| self.expired_hi(*k)).collect();
+            if rec.iter().any(|x| self.expired_hi(x.0) != self.expired_with_lower_bound(x.0)) {
+                // access time not known exactly
+                self.pred_ok = false;
+                self.stats.inc("prediction_abandoned");
+                return Ok(());
+            }
+            rec.retain(|x| !now_expired.contains(&x.0));
+            expired.extend(now_expired);
         }
         if sync && !eff.is_empty() {
             Self::evict_excess(&mut rec, cap, &mut evicted);
@@ -1655,6 +1721,12 @@ impl<'a> Exec<'a> {
         }
 
         // agreement: collect the evidence classes
+        if sync_expiry && !evicted.is_empty() {
+            self.stats.inc("predicted_evictions_confirmed_on_concurrent_cache_with_expiry");
+            if !expired.is_empty() {
+                self.stats.inc("predicted_evictions_confirmed_in_a_run_that_also_purged_expired_entries");
+            }
+        }
         if !evicted.is_empty() {
             self.stats.inc("predicted_evictions_confirmed");
             if evicted.len() >= 2 {
